@@ -10,7 +10,8 @@ Every TOP-LEVEL filesystem call (nested fsspec-internal calls are hidden by a pe
   task    "main", "proc:<i>" (inside process_partition(df, i)) or "cat:<k>" (inside concat_parts for output partition k)
   res     result of observing calls (exists / isfile / isdir -> bool, ls -> sorted names) or "raise:<Exc>" for a failure
 Faults: `plan` maps a 1-based top-level call number (or a predicate) to a fault kind: "OSError", "FileNotFoundError" (raised BEFORE the
-effect) or "stale" (ls only: the listing is returned with one entry dropped or a ghost entry added)."""
+effect) or "stale[:first|last|mid|all|tail2|ghost]" (ls only: the listing is returned with the first / last / middle entry hidden,
+empty, without its last two entries, or with a ghost entry added; plain "stale" picks first or ghost at random)."""
 from __future__ import annotations
 
 import os
@@ -113,10 +114,17 @@ class RecordingFS(LocalFileSystem):
             ev["res"] = bool(res)
         elif op == "ls":
             names = sorted(self._rel(r["name"] if isinstance(r, dict) else r) for r in res)
-            if fault == "stale":
+            if isinstance(fault, str) and fault.startswith("stale"):
                 ev["injected"] = True
-                if names and self._rng.random() < 0.5:
-                    res = [r for r in res if self._rel(r["name"] if isinstance(r, dict) else r) != names[0]]
+                variant = fault.partition(":")[2] or ("first" if names and self._rng.random() < 0.5 else "ghost")
+                nm = lambda r: self._rel(r["name"] if isinstance(r, dict) else r)  # noqa: E731
+                if variant in ("first", "last", "mid") and names:
+                    hide = {"first": names[0], "last": names[-1], "mid": names[len(names) // 2]}[variant]
+                    res = [r for r in res if nm(r) != hide]
+                elif variant == "all":
+                    res = []
+                elif variant == "tail2" and len(names) >= 2:
+                    res = [r for r in res if nm(r) not in names[-2:]]
                 else:
                     ghost = os.path.join(self._root, ev["path"] if isinstance(ev["path"], str) else "", "ghost.parquet")
                     res = list(res) + [ghost if not (res and isinstance(res[0], dict)) else dict(name=ghost, size=0, type="file")]
